@@ -116,7 +116,7 @@ def norm_positive(it, args, kwargs):
 def stack(it, args, kwargs):
     x = args[0]
     if isinstance(x, SymSeq):
-        r = it.w.fresh("stacked", "val")
+        r = it.w.uf("xp.stack", [x], "val")
         r.meta["len"] = x.n
         return r
     r = it.w.uf("xp.stack", list(args), "val")
@@ -319,3 +319,46 @@ def ceil(it, args, kwargs):
 ARR_EXT = dict(NUM_EXT)
 ARR_EXT.update({"xp.ones": ones, "xp.zeros": zeros, "xp.sum": sum2, "xp.hstack": hstack, "xp.stack": stack2, "xp.vstack": vstack,
                 "xp.ceil": ceil})
+
+
+class AbsList:
+    """Python list of reals with a symbolic length (used for the energy history of the minimisers)."""
+
+    _zpy = True
+
+    def __init__(self, elems, n):
+        self.elems, self.n = elems, n
+
+    @staticmethod
+    def fresh(world, name):
+        k = next(world.fresh_counter)
+        n = z3.Int(f"{name}!len{k}")
+        return AbsList(z3.Array(f"{name}!e{k}", z3.IntSort(), z3.RealSort()), n)
+
+    @staticmethod
+    def of(it, items):
+        a = z3.K(z3.IntSort(), z3.RealVal(0))
+        for i, v in enumerate(items):
+            a = z3.Store(a, i, it.as_z3(v, "real"))
+        return AbsList(a, z3.IntVal(len(items)))
+
+    def append(self, it, v):
+        self.elems = z3.Store(self.elems, self.n, it.as_z3(v, "real"))
+        self.n = z3.simplify(self.n + 1)
+
+    def z_len(self, it):
+        return Sym(self.n, "int")
+
+    def z_getitem(self, it, idx):
+        if isinstance(idx, slice):
+            return it.w.uf("slice", [Sym(self.n, "int"), idx.start, idx.stop], "val")
+        e = it.as_z3(idx, "int")
+        p = z3.simplify(z3.If(e < 0, self.n + e, e))
+        it.oblige("list index in range", z3.And(p >= 0, p < self.n))
+        return Sym(z3.Select(self.elems, p), "real")
+
+    def z_binop(self, it, op, other, swapped):
+        if op is ast.Add and isinstance(other, list) and not other and swapped:
+            return self
+        return NotImplemented
+
